@@ -66,7 +66,9 @@ def snap_res(r):
             "method": r.method, "names": [r.to_series().index.name, r.to_series().name],
             "untied_series": r.to_series(untied=True).to_numpy().tolist(),
             "untied_index": [repr(a) for a in r.to_series(untied=True).index],
-            "untied_names": [r.to_series(untied=True).index.name, r.to_series(untied=True).name]}
+            "untied_names": [r.to_series(untied=True).index.name, r.to_series(untied=True).name],
+            "ties": sorted((int(k), int(v)) for k, v in r.ties_.items()), "has_ties": bool(r.has_ties_),
+            "untied_rank": np.asarray(r.untied_rank_).tolist()}
 
 
 # ---- the enumerated accessor surface ---------------------------------------------------------------------------
@@ -112,6 +114,7 @@ RES_ACC = [
     ("result.values", lambda r: r.values), ("result.alternatives", lambda r: r.alternatives),
     ("result.rank_", lambda r: r.rank_), ("result.untied_rank_", lambda r: r.untied_rank_),
     ("result.to_series", lambda r: r.to_series()), ("result.to_series(untied)", lambda r: r.to_series(untied=True)),
+    ("result.ties_", lambda r: r.ties_),
 ]
 SURFACE = [n for n, _ in DM_ACC + RES_ACC]
 
@@ -120,12 +123,12 @@ NOT_ACCESSORS = {
     "DecisionMatrix": {"aequals", "copy", "diff", "equals", "from_mcda_data", "iloc", "loc", "plot", "shape",
                        "dominance", "stats", "to_dict", "describe"},
     "RankResult": {"aequals", "diff", "equals", "values_equals", "method", "shape", "e_", "extra_", "has_ties_",
-                   "ties_", "to_series"},
+                   "to_series"},
 }
 COVERED = {
     "DecisionMatrix": {"alternatives", "criteria", "weights", "objectives", "iobjectives", "minwhere", "maxwhere",
                        "dtypes", "matrix", "to_dataframe"},
-    "RankResult": {"values", "alternatives", "rank_", "untied_rank_"},
+    "RankResult": {"values", "alternatives", "rank_", "untied_rank_", "ties_"},
 }
 
 
@@ -239,7 +242,7 @@ def mutate(obj, route):
                 obj.sort_index(ascending=False, inplace=True)
         elif route == "dict_set":
             for k in list(obj):
-                obj[k] = None
+                obj[k] = (1 if obj[k] != 1 else 2) if isinstance(obj[k], int) else None
         elif route == "list_set":
             obj[0] = None
         return True
@@ -393,6 +396,12 @@ def run_ctor(case):
         w = np.array(case["weights"], dtype=float)
         objs = np.array(case["objectives"]) if case["obj_kind"] == "int" else \
             np.array([max if o == 1 else min for o in case["objectives"]], dtype=object)
+        if case.get("frozen"):
+            # arrays that the caller protects while he shares them ... and thaws again afterwards (his right: they
+            # own their memory)
+            for a in (mtx, w, objs, alts, crits):
+                if isinstance(a, np.ndarray):
+                    a.setflags(write=False)
         if case["via"] == "mkdm":
             dm = I.mkdm(mtx, objs, weights=w, alternatives=alts, criteria=crits)
         else:
@@ -403,6 +412,8 @@ def run_ctor(case):
         acc = 0
         for a in (mtx, w, objs, alts, crits):
             if isinstance(a, np.ndarray):
+                if case.get("frozen"):
+                    a.setflags(write=True)
                 acc += mutate(a, "arr_item")
                 acc += mutate(a, "arr_fill")
             else:
@@ -458,6 +469,7 @@ def run(ctx):
         c["label_kind"] = ctx.rng.choice(["list", "object", "int", "str"])
         c["obj_kind"] = ctx.rng.choice(["int", "object"])
         c["via"] = ctx.rng.choice(["mkdm", "mkdm", "ctor"])
+        c["frozen"] = ctx.rng.random() < 0.3
         c["kind"] = "ctor"
         ccases.append(c)
     couts = I.pmap(run_ctor, ccases)
